@@ -8,8 +8,12 @@ A case is a HISTORY of calls on one transformer object:
           | "notseries" | "fidx"        (an integer "dt" is honoured only for integral, NaN-free values)
 
 cfg:  ["des", sp, "A"|"M"]  ["cdes", sp, "A"|"M", test]  ["det", degree]  ["bc"]  ["log"]
-      ["ad", name]  ["hampel", w, n_sigma, k]  ["pass", flag, inner_cfg]
-      ["imputer", method] ["acf", nlags] ["pacf", nlags] ["cos"]     (observed + oracle only)
+      ["ad", name]  ["hampel", w, n_sigma, k(, return_bool)]  ["pass", flag, inner_cfg]
+      ["imputer", method(, missing_values)] ["acf", nlags(, adjusted, fft)] ["pacf", nlags(, method)] ["cos"]
+      ["det", degree, "noint"] (with_intercept=False)                (observed + oracle only)
+OPTIONS: every constructor option of every class is exercised away from its default too (HampelFilter return_bool,
+Imputer missing_values / random / forecaster, ACF adjusted / fft, PACF method, the trend forecaster's with_intercept,
+sklearn transformers with non-default options inside the adaptor); the same clauses apply.
 
 "pform": "np" | "int" (optional) = every parameter of the case's object is passed in an EQUAL-VALUED form (np.bool_ /
 0-1 flags, numpy integers, np.float64, np.str_); results must equal those with the builtin values.
@@ -113,6 +117,7 @@ SITE = {"des": "Deseasonalizer", "cdes": "ConditionalDeseasonalizer", "det": "De
         "log": "LogTransformer", "ad": "TabularToSeriesAdaptor", "hampel": "HampelFilter", "imputer": "Imputer",
         "acf": "AutoCorrelationTransformer", "pacf": "PartialAutoCorrelationTransformer", "cos": "CosineTransformer"}
 HAMPEL_K = 1.4826
+SENTINEL = -99.0          # Imputer(missing_values=SENTINEL): the value that marks a missing observation
 
 
 def _site(cfg):
@@ -137,6 +142,12 @@ def _sk(name):
         return StandardScaler()
     if name == "binarizer":
         return Binarizer(threshold=2.0)
+    if name == "minmax11":
+        return MinMaxScaler(feature_range=(-1, 1))
+    if name == "standard_nomean":
+        return StandardScaler(with_mean=False)
+    if name == "robust_wide":
+        return RobustScaler(quantile_range=(10.0, 90.0), with_centering=False)
     if name == "log1p":
         return FunctionTransformer(np.log1p, inverse_func=np.expm1, check_inverse=False)
     raise ValueError(name)
@@ -182,6 +193,8 @@ def _params_plain(cfg, form=None):
         from sktime.forecasting.trend import PolynomialTrendForecaster
         if cfg[1] == 1 and len(cfg) > 2 and cfg[2] == "default":
             return {"forecaster": None}
+        if len(cfg) > 2 and cfg[2] == "noint":
+            return {"forecaster": PolynomialTrendForecaster(degree=_form(cfg[1], form), with_intercept=_form(False, form))}
         return {"forecaster": PolynomialTrendForecaster(degree=_form(cfg[1], form))}
     if k == "bc":
         b = cfg[1] if len(cfg) > 1 else None
@@ -189,13 +202,21 @@ def _params_plain(cfg, form=None):
     if k == "ad":
         return {"transformer": _sk(cfg[1])}
     if k == "hampel":
-        return {"window_length": cfg[1], "n_sigma": cfg[2], "k": cfg[3]}
+        return {"window_length": cfg[1], "n_sigma": cfg[2], "k": cfg[3], "return_bool": bool(cfg[4]) if len(cfg) > 4 else False}
     if k == "pass":
         return {"transformer": _build(cfg[2], form), "passthrough": bool(cfg[1])}
     if k == "imputer":
-        return {"method": cfg[1], "value": 1.5 if cfg[1] == "constant" else None}
-    if k in ("acf", "pacf"):
-        return {"n_lags": cfg[1]}
+        d = {"method": cfg[1], "value": 1.5 if cfg[1] == "constant" else None,
+             "missing_values": float(cfg[2]) if len(cfg) > 2 and cfg[2] is not None else None,
+             "random_state": 3 if cfg[1] == "random" else None, "forecaster": None}
+        if cfg[1] == "forecaster":
+            from sktime.forecasting.trend import PolynomialTrendForecaster
+            d["forecaster"] = PolynomialTrendForecaster(degree=_form(2, form))
+        return d
+    if k == "acf":
+        return {"n_lags": cfg[1], "adjusted": bool(cfg[2]) if len(cfg) > 2 else False, "fft": bool(cfg[3]) if len(cfg) > 3 else False}
+    if k == "pacf":
+        return {"n_lags": cfg[1], "method": cfg[2] if len(cfg) > 2 else "ywadjusted"}
     return {}
 
 
@@ -228,7 +249,7 @@ def _build(cfg, form=None):
         return OptionalPassthrough(pr["transformer"], passthrough=pr["passthrough"])
     if k == "imputer":
         from sktime.transformations.series.impute import Imputer
-        return Imputer(method=pr["method"]) if cfg[1] != "constant" else Imputer(method=pr["method"], value=pr["value"])
+        return Imputer(**{a: v for a, v in pr.items() if v is not None})
     if k == "acf":
         from sktime.transformations.series.acf import AutoCorrelationTransformer
         return AutoCorrelationTransformer(**pr)
@@ -636,7 +657,8 @@ def _cfg_str(cfg):
     if k == "ad":
         return "ad:%s" % ("T" if _sk_has_inverse(cfg[1]) else "F")
     if k == "hampel":
-        return "hampel:%d:%s:%s" % (cfg[1], show_rat(cfg[2]), show_rat(float(cfg[3])))
+        return "hampel:%d:%s:%s" % (cfg[1], show_rat(cfg[2]), show_rat(float(cfg[3]))) + (
+            ":%s" % ("T" if cfg[4] else "F") if len(cfg) > 4 else "")
     if k == "pass":
         return "pass:%s:%s" % ("T" if cfg[1] else "F", _cfg_str(cfg[2]))
     raise ValueError(cfg)
@@ -644,7 +666,9 @@ def _cfg_str(cfg):
 
 def _modelled(cfg):
     if cfg[0] == "pass":
-        return cfg[2][0] in MODELLED and cfg[2][0] != "pass"
+        return cfg[2][0] in MODELLED and cfg[2][0] != "pass" and _modelled(cfg[2])
+    if cfg[0] == "det" and len(cfg) > 2 and cfg[2] == "noint":
+        return False         # with_intercept=False: another embedded regression than the driver's (oracle only)
     return cfg[0] in MODELLED
 
 
@@ -1201,6 +1225,13 @@ def features(case, out):
         f.append("history:" + (cfg[0] if cfg[0] != "pass" else "pass(%s->%s)" % ("T" if case["pre"]["cfg"][1] else "F", "T" if cfg[1] else "F")))
     if any(o["op"] == "upd" for o in case["ops"]):
         f.append("with-update")
+    ec = cfg[2] if cfg[0] == "pass" else cfg
+    if ec[0] == "hampel" and len(ec) > 4:
+        f.append("hampel:return_bool=%s" % bool(ec[4]))
+    if (ec[0] in ("imputer", "pacf") and len(ec) > 2) or (ec[0] == "acf" and len(ec) > 2 and (ec[2] or ec[3])) or \
+            (ec[0] == "imputer" and ec[1] in ("random", "forecaster")) or (ec[0] == "det" and ec[-1] == "noint") or \
+            (ec[0] == "ad" and ec[1] in ("minmax11", "standard_nomean", "robust_wide")) or (ec[0] == "hampel" and len(ec) > 4 and ec[4]):
+        f.append("non-default-option:" + ec[0])
     for t in main:
         p = _parse_tok(t)
         if p[0] == "err":
@@ -1336,6 +1367,8 @@ def _gen_det(tier, rng, cases):
     for r in range(reps):
         deg = rng.choice([0, 1, 1])
         cfg = ["det", deg] if not (deg == 1 and rng.random() < 0.3) else ["det", 1, "default"]
+        if r % 10 == 9:
+            cfg = ["det", rng.choice([1, 1, 2]), "noint"]       # the trend forecaster's other option: with_intercept=False
         t0 = rng.choice([-6, 0, 3, 10])
         n = rng.choice([1, 2, 3, 5, 8, 12])
         z1 = _series(rng, t0, n, positive=False)
@@ -1401,7 +1434,8 @@ def _gen_det(tier, rng, cases):
 
 def _gen_col(tier, rng, cases):
     reps = 25 if tier == "quick" else 300
-    for cfg in (["bc"], ["bc", [0, 1], "mle"], ["bc", None, "pearsonr"], ["bc", [-1, 2], "pearsonr"], ["log"], ["ad", "minmax"], ["ad", "standard"], ["ad", "robust"], ["ad", "binarizer"], ["ad", "log1p"]):
+    for cfg in (["bc"], ["bc", [0, 1], "mle"], ["bc", None, "pearsonr"], ["bc", [-1, 2], "pearsonr"], ["log"], ["ad", "minmax"], ["ad", "standard"], ["ad", "robust"], ["ad", "binarizer"], ["ad", "log1p"],
+                ["ad", "minmax11"], ["ad", "standard_nomean"], ["ad", "robust_wide"]):
         for r in range(reps):
             t0 = rng.choice([-5, 0, 4, 20])
             n = rng.randrange(3, 12)
@@ -1463,21 +1497,26 @@ def _neighbours(cfg):
             out += [[k, cfg[1], cfg[2], t] for t in ("true", "false", "default") if t != cfg[3]]
         return out
     if k == "det":
-        return [c for c in (["det", 0], ["det", 1], ["det", 1, "default"]) if c != cfg]
+        return [c for c in (["det", 0], ["det", 1], ["det", 1, "default"], ["det", 1, "noint"]) if c != cfg]
     if k == "bc":
         return [c for c in (["bc"], ["bc", [0, 1], "mle"], ["bc", None, "pearsonr"], ["bc", [-2, 0.5], "mle"]) if c != cfg]
     if k == "ad":
-        return [["ad", n] for n in ("minmax", "standard", "robust", "binarizer", "log1p") if n != cfg[1]]
+        return [["ad", n] for n in ("minmax", "standard", "robust", "binarizer", "log1p", "minmax11", "standard_nomean") if n != cfg[1]]
     if k == "hampel":
-        return [["hampel", w, ns, kk] for (w, ns, kk) in ((2, 3, HAMPEL_K), (5, 1, 1.0), (3, 2, 0.5)) if [w, ns, kk] != cfg[1:]]
+        me = list(cfg[1:4]) + [bool(cfg[4]) if len(cfg) > 4 else False]
+        return [["hampel", w, ns, kk, rb] for (w, ns, kk) in ((2, 3, HAMPEL_K), (5, 1, 1.0), (3, 2, 0.5), tuple(cfg[1:4]))
+                for rb in (False, True) if [w, ns, kk, rb] != me]
     if k == "pass":
         out = [["pass", not cfg[1], cfg[2]]]
         out += [["pass", fl, inner] for inner in _INNERS if inner != cfg[2] for fl in (True, False)]
         return out
     if k == "imputer":
-        return [["imputer", m] for m in ("drift", "linear", "constant", "mean", "ffill") if m != cfg[1]]
-    if k in ("acf", "pacf"):
-        return [[k, n] for n in (1, 2, 3, 4) if n != cfg[1]]
+        return [c for c in ([["imputer", m] for m in ("drift", "linear", "constant", "mean", "ffill", "random", "forecaster")]
+                            + [["imputer", "linear", SENTINEL], ["imputer", "mean", SENTINEL]]) if c != cfg]
+    if k == "acf":
+        return [c for c in ([[k, n] for n in (1, 2, 3, 4)] + [[k, 2, True, False], [k, 2, False, True]]) if c != cfg]
+    if k == "pacf":
+        return [c for c in ([[k, n] for n in (1, 2, 3, 4)] + [[k, 2, "ywmle"], [k, 2, "ols"]]) if c != cfg]
     return [list(cfg)]        # log, cos: no parameters; the history is other data only
 
 
@@ -1546,7 +1585,7 @@ def _gen_other(tier, rng, cases):
     """every class x (same parameters | default-constructed | neighbouring configuration) as the second object"""
     bases = [["des", 4, "A"], ["des", 1, "A"], ["cdes", 3, "A", "true"], ["cdes", 1, "A", "default"], ["det", 1], ["det", 0],
              ["det", 1, "default"], ["bc"], ["bc", [0, 1], "mle"], ["log"], ["ad", "minmax"], ["ad", "standard"],
-             ["hampel", 3, 3, HAMPEL_K], ["imputer", "linear"], ["imputer", "drift"], ["acf", 2], ["cos"],
+             ["hampel", 3, 3, HAMPEL_K], ["hampel", 3, 3, HAMPEL_K, True], ["imputer", "linear"], ["imputer", "drift"], ["acf", 2], ["cos"],
              ["pass", False, ["det", 1, "default"]], ["pass", False, ["des", 2, "A"]], ["pass", True, ["bc"]], ["pass", False, ["ad", "minmax"]]]
     reps = 2 if tier == "quick" else 12
     for cfg in bases:
@@ -1579,7 +1618,7 @@ def _gen_history(tier, rng, cases):
     """every class x every neighbouring configuration it may have had before set_params + fit"""
     bases = [["des", 4, "A"], ["des", 2, "M"], ["cdes", 3, "A", "true"], ["cdes", 2, "M", "false"], ["det", 1], ["det", 0],
              ["bc"], ["bc", [0, 1], "mle"], ["log"], ["ad", "minmax"], ["ad", "standard"], ["ad", "binarizer"],
-             ["hampel", 3, 3, HAMPEL_K], ["imputer", "linear"], ["imputer", "constant"], ["acf", 2], ["cos"]]
+             ["hampel", 3, 3, HAMPEL_K], ["hampel", 3, 3, HAMPEL_K, True], ["imputer", "linear"], ["imputer", "constant"], ["acf", 2], ["cos"]]
     bases += [["pass", fl, inner] for inner in _INNERS for fl in (True, False)]
     reps = 1 if tier == "quick" else 5
     for cfg in bases:
@@ -1621,8 +1660,10 @@ def _frame(rng, start, n, cols, nan_p=0.0, positive=True):
 def _gen_frames(tier, rng, cases):
     """multivariate frames (2-3 columns, string and integer labels, NOT in sorted order) for the transformers that accept them"""
     colsets = [["temp", "load"], ["b", "a", "c"], [2, 0, 1], [1, 0], [10, 3], ["y", "x"], ["a", "b"]]
-    cfgs = [["ad", "standard"], ["ad", "minmax"], ["ad", "robust"], ["ad", "log1p"], ["log"], ["cos"], ["hampel", 3, 3, HAMPEL_K]]
+    cfgs = [["ad", "standard"], ["ad", "minmax"], ["ad", "robust"], ["ad", "log1p"], ["log"], ["cos"], ["hampel", 3, 3, HAMPEL_K],
+            ["hampel", 3, 3, HAMPEL_K, True], ["hampel", 4, 2, 1.0, True], ["ad", "minmax11"], ["ad", "standard_nomean"]]
     cfgs += [["imputer", m] for m in ("linear", "mean", "median", "ffill", "bfill", "constant", "nearest", "drift")]
+    cfgs += [["imputer", "linear", SENTINEL], ["imputer", "mean", SENTINEL], ["imputer", "drift", SENTINEL], ["imputer", "forecaster"]]
     reps = 2 if tier == "quick" else 14
     for cfg in cfgs:
         for cols in colsets:
@@ -1633,6 +1674,14 @@ def _gen_frames(tier, rng, cases):
                 pos = cfg[0] != "cos"
                 z1 = _frame(rng, t0, n, cols, nanp, pos)
                 z2 = _frame(rng, t0 + rng.randrange(-3, n + 3), rng.randrange(2 if cfg[0] != "hampel" else 5, 8), cols, nanp, pos)
+                if cfg[0] == "imputer" and len(cfg) > 2:          # missing observations are marked by the sentinel value
+                    for zz in (z1, z2):
+                        zz["vv"] = [[SENTINEL if (v is not None and rng.random() < 0.2) else v for v in col] for col in zz["vv"]]
+                if cfg[0] == "hampel":
+                    for zz in (z1, z2):
+                        for col in zz["vv"]:
+                            if rng.random() < 0.7:
+                                col[rng.randrange(len(col))] = rng.choice([40000.0, -30000.0])
                 ops = [{"op": "fit", "z": z1}, {"op": "tr", "z": z1}, {"op": "inv", "z": z1, "ref": 1},
                        {"op": "tr", "z": z2}, {"op": "inv", "z": z2, "ref": 3}]
                 if rng.random() < 0.3:
@@ -1665,7 +1714,8 @@ def _gen_time_index(tier, rng, cases):
 
 def _gen_pass(tier, rng, cases):
     inners = [["des", 2, "A"], ["des", 3, "M"], ["cdes", 2, "A", "true"], ["det", 1], ["det", 0], ["bc"], ["log"],
-              ["ad", "minmax"], ["ad", "binarizer"], ["hampel", 3, 3, HAMPEL_K]]
+              ["ad", "minmax"], ["ad", "binarizer"], ["hampel", 3, 3, HAMPEL_K],
+              ["hampel", 3, 3, HAMPEL_K, True], ["det", 1, "noint"], ["ad", "standard_nomean"]]
     reps = 4 if tier == "quick" else 40
     for inner in inners:
         for flag in (True, False):
@@ -1696,8 +1746,13 @@ def _gen_hampel(tier, rng, cases):
             z = _series(rng, t0, n, positive=False, nan_p=0.08)
             for _k in range(rng.randrange(0, 3)):
                 z["v"][rng.randrange(n)] = rng.choice([400.0, -300.0, 90.5])
-            cases.append({"cfg": ["hampel", w, rng.choice([3, 2, 1]), rng.choice([HAMPEL_K, 1.0, 0.5])], "itype": rng.choice(["range", "int64"]),
-                          "shift": rng.choice([0, 0, 5, -1, -n]), "ops": [{"op": "ft", "z": z}]})
+            cfg = ["hampel", w, rng.choice([3, 2, 1]), rng.choice([HAMPEL_K, 1.0, 0.5]), rng.random() < 0.5]    # return_bool: both values
+            ops = [{"op": "ft", "z": z}]
+            if rng.random() < 0.3:         # a later / overlapping stretch through the fitted object
+                n2 = rng.randrange(max(2, w - 1), 12)
+                ops.append({"op": "tr", "z": _series(rng, t0 + rng.randrange(-2, n + 3), n2, positive=False, nan_p=0.08)})
+            cases.append({"cfg": cfg, "itype": rng.choice(["range", "int64"]),
+                          "shift": rng.choice([0, 0, 5, -1, -n]), "ops": ops})
 
 
 def _gen_positional(tier, rng, cases):
@@ -1705,12 +1760,18 @@ def _gen_positional(tier, rng, cases):
     reps = 3 if tier == "quick" else 40
     cfgs = [["imputer", m] for m in ("drift", "linear", "nearest", "constant", "mean", "median", "bfill", "ffill")]
     cfgs += [["acf", 2], ["acf", 4], ["pacf", 2], ["cos"]]
+    # the classes' other options away from their defaults
+    cfgs += [["imputer", "random"], ["imputer", "forecaster"], ["imputer", "linear", SENTINEL], ["imputer", "drift", SENTINEL],
+             ["imputer", "mean", SENTINEL], ["imputer", "ffill", SENTINEL], ["acf", 2, True, False], ["acf", 3, False, True],
+             ["acf", 2, True, True], ["pacf", 2, "ywmle"], ["pacf", 2, "ols"], ["pacf", 3, "ldbiased"]]
     for cfg in cfgs:
         for _ in range(reps):
             n = rng.randrange(8, 16)
             z = _series(rng, rng.choice([0, 4, -3]), n, positive=False, nan_p=0.2 if cfg[0] == "imputer" else 0.0)
             if cfg[0] == "imputer" and all(v is None for v in z["v"]):
                 z["v"][0] = 1.0
+            if cfg[0] == "imputer" and len(cfg) > 2:
+                z["v"] = [SENTINEL if (v is not None and rng.random() < 0.2) else v for v in z["v"]]
             cases.append({"cfg": cfg, "itype": rng.choice(["range", "int64"]), "shift": rng.choice([6, -2, 1]),
                           "ops": [{"op": "ft", "z": z}, {"op": "tr", "z": z}]})
 
